@@ -97,6 +97,8 @@ type SweepResult struct {
 	MaxAllocAt    string         `json:"max_alloc_at"`
 	MaxCallMs     float64        `json:"max_call_ms"`
 	Units         int            `json:"units"`
+	Labels        map[string]int `json:"inputs_by_label"` // input family | class | first irregularity
+	DistinctIn    int            `json:"distinct_input_classes"`
 	Skipped       int            `json:"skipped_after_resource_finding"`
 	Samples       []any          `json:"samples"`
 }
@@ -285,6 +287,7 @@ type unitResult struct {
 	Ok         int            `json:"ok"`
 	ByClass    map[string]int `json:"by_class"`
 	ByKind     map[string]int `json:"by_kind"`
+	ByLabel    map[string]int `json:"by_label"`
 	OkByTarget map[string]int `json:"ok_by_target"`
 	Dis        []Disagreement `json:"dis"`
 	MaxAlloc   uint64         `json:"max_alloc"`
@@ -298,7 +301,9 @@ type callPos struct {
 	Unit, Input, Target, Mode int
 }
 
-func (p callPos) String() string { return fmt.Sprintf("%d:%d:%d:%d", p.Unit, p.Input, p.Target, p.Mode) }
+func (p callPos) String() string {
+	return fmt.Sprintf("%d:%d:%d:%d", p.Unit, p.Input, p.Target, p.Mode)
+}
 
 var allocSample = []metrics.Sample{{Name: "/gc/heap/allocs:bytes"}}
 
@@ -403,8 +408,9 @@ type child struct {
 	plan    *plan
 	targets []Target
 	skip    map[string]bool
-	status  []byte // mmap: unit, input, target, mode (uint32 LE) + phase flag
-	start   atomic.Int64
+	status  []byte       // mmap: unit, input, target, mode (uint32 LE) + phase flag
+	start   atomic.Int64 // wall clock at the start of the current call (0: idle)
+	cpu0    atomic.Int64 // process CPU time at the start of the current call
 	limit   atomic.Int64
 	out     *bufio.Writer
 	outMu   sync.Mutex
@@ -416,14 +422,21 @@ type child struct {
 
 // resourceClass names the input class in keys of resource findings (allocation, hang, fatal).
 func resourceClass(in Input, v V) string {
-	if strings.HasPrefix(v.Irr, "claims-more") {
-		return v.Irr
-	}
 	switch in.Kind {
 	case "deep-arrays", "deep-arrays-truncated", "deep-tags", "deep-maps", "deep-indefinite", "nested-arrays-claiming-n", "nested-maps-claiming-n":
 		return in.Kind
 	}
 	return classLabel(in.B, v)
+}
+
+// cpuNow is the CPU time (user+system) consumed by this process. The hang limit is applied to CPU
+// time so that a loaded machine does not turn slow calls into hangs ("10 s on an idle core").
+func cpuNow() time.Duration {
+	var ru syscall.Rusage
+	if err := syscall.Getrusage(syscall.RUSAGE_SELF, &ru); err != nil {
+		return 0
+	}
+	return time.Duration(ru.Utime.Nano() + ru.Stime.Nano())
 }
 
 func badKey(in Input, v V, t *Target) string { return resourceClass(in, v) + "|" + t.Family }
@@ -477,7 +490,7 @@ var modes = []string{"stream", "whole"}
 func (c *child) runUnit(u int) *unitResult {
 	c.loadBad()
 	ins, perCall := c.plan.inputs(u)
-	res := &unitResult{Unit: u, Inputs: len(ins), ByClass: map[string]int{}, ByKind: map[string]int{}, OkByTarget: map[string]int{}}
+	res := &unitResult{Unit: u, Inputs: len(ins), ByClass: map[string]int{}, ByKind: map[string]int{}, ByLabel: map[string]int{}, OkByTarget: map[string]int{}}
 	ag := &agg{m: map[string]*Disagreement{}}
 	verd := make([]V, len(ins))
 	className := [4]string{"bad", "def", "indef", "len"}
@@ -485,6 +498,7 @@ func (c *child) runUnit(u int) *unitResult {
 		verd[i] = Verdict(in.B)
 		res.ByClass[className[verd[i].Class]]++
 		res.ByKind[in.Kind]++
+		res.ByLabel[in.Kind+"|"+className[verd[i].Class]+"|"+verd[i].Irr]++
 	}
 	call := func(ii, ti, mi int, metered bool) {
 		in, t := ins[ii], &c.targets[ti]
@@ -498,11 +512,14 @@ func (c *child) runUnit(u int) *unitResult {
 		}
 		var a0 uint64
 		var t0 time.Time
+		var cpu0 time.Duration
 		if metered {
 			c.setStatus(pos)
 			c.limit.Store(int64(hangLimit))
+			c.cpu0.Store(int64(cpuNow()))
 			c.start.Store(time.Now().UnixNano())
 			t0 = time.Now()
+			cpu0 = cpuNow()
 			a0 = allocNow()
 		}
 		var o outcome
@@ -513,7 +530,8 @@ func (c *child) runUnit(u int) *unitResult {
 		}
 		if metered {
 			da := allocNow() - a0
-			dt := time.Since(t0)
+			dt := cpuNow() - cpu0
+			_ = t0
 			c.start.Store(0)
 			if da > res.MaxAlloc {
 				res.MaxAlloc = da
@@ -530,7 +548,7 @@ func (c *child) runUnit(u int) *unitResult {
 			}
 			if dt > hangLimit {
 				ex := example(t, modes[mi], in, verd[ii], o)
-				ex.Observed = fmt.Sprintf("Hang: call took %s; result %s", dt, ex.Observed)
+				ex.Observed = fmt.Sprintf("Hang: call took %s of CPU time; result %s", dt, ex.Observed)
 				ag.add(fmt.Sprintf("hang|class=%s|family=%s", resourceClass(in, verd[ii]), t.Family), ex)
 				c.noteBad(in, verd[ii], t, true)
 			} else if dt > 2*time.Second {
@@ -561,13 +579,14 @@ func (c *child) runUnit(u int) *unitResult {
 			for mi := range modes {
 				c.setStatus(callPos{u, -1, ti, mi})
 				c.limit.Store(int64(batchHangLim))
+				c.cpu0.Store(int64(cpuNow()))
 				c.start.Store(time.Now().UnixNano())
 				a0 := allocNow()
-				t0 := time.Now()
+				t0 := cpuNow()
 				for ii := range ins {
 					call(ii, ti, mi, false)
 				}
-				da, dt := allocNow()-a0, time.Since(t0)
+				da, dt := allocNow()-a0, cpuNow()-t0
 				c.start.Store(0)
 				if da > allocSlack || dt > hangLimit {
 					calls, ok := res.Calls, res.Ok
@@ -638,7 +657,11 @@ func RunChild(jobPath string, shard, of, from int, skip []string, partial, statu
 		for {
 			time.Sleep(250 * time.Millisecond)
 			st := c.start.Load()
-			if st != 0 && time.Now().UnixNano()-st > c.limit.Load()+int64(2*time.Second) {
+			if st == 0 {
+				continue
+			}
+			// CPU time beyond the limit, or (backstop for a blocked call) 12x the limit in wall time
+			if int64(cpuNow())-c.cpu0.Load() > c.limit.Load()+int64(time.Second) || time.Now().UnixNano()-st > 12*c.limit.Load() {
 				p := c.cur.Load()
 				c.emit(&unitResult{Unit: p.Unit, Hang: p})
 				os.Exit(3)
@@ -728,7 +751,7 @@ func CrossCheckTable(lines []TableLine, res *SweepResult) (table3, shapes [][]by
 
 // RunSweep is the parent: plans the units, runs the children, merges their results.
 func RunSweep(o SweepOpts) (*SweepResult, error) {
-	res := &SweepResult{ByClass: map[string]int{}, ByKind: map[string]int{}, OkByTarget: map[string]int{}, Targets: len(Targets())}
+	res := &SweepResult{ByClass: map[string]int{}, ByKind: map[string]int{}, Labels: map[string]int{}, OkByTarget: map[string]int{}, Targets: len(Targets())}
 	job := &Job{Seed: o.Seed, Tier: o.Tier, NSeeded: o.NSeeded}
 	if o.Table != "" {
 		data, err := os.ReadFile(o.Table)
@@ -841,7 +864,7 @@ func RunSweep(o SweepOpts) (*SweepResult, error) {
 				}
 				mu.Unlock()
 				if code == 3 {
-					ex.Observed = fmt.Sprintf("Hang: no return within %s", hangLimit)
+					ex.Observed = fmt.Sprintf("Hang: no return within %s of CPU time", hangLimit)
 					ag.add(fmt.Sprintf("hang|class=%s|family=%s", resourceClass(in, v), t.Family), ex)
 				} else {
 					frame := "unknown"
@@ -886,6 +909,9 @@ func RunSweep(o SweepOpts) (*SweepResult, error) {
 			for c, n := range ur.ByKind {
 				res.ByKind[c] += n
 			}
+			for c, n := range ur.ByLabel {
+				res.Labels[c] += n
+			}
 			for c, n := range ur.OkByTarget {
 				res.OkByTarget[c] += n
 			}
@@ -901,6 +927,7 @@ func RunSweep(o SweepOpts) (*SweepResult, error) {
 		f.Close()
 	}
 	res.ErrCalls = res.Calls - res.OkCalls
+	res.DistinctIn = len(res.Labels)
 	if len(done) != res.Units {
 		res.Incomplete = append(res.Incomplete, fmt.Sprintf("%d of %d units completed", len(done), res.Units))
 	}
